@@ -28,6 +28,8 @@ func init() {
 	reg1("C12Conc", SetupC12Conc, HarnessC12Conc)
 	reg1("C06Parked", SetupC06Parked, HarnessC06Parked)
 	reg1("C07Pair", SetupC07Pair, HarnessC07Pair)
+	reg1("C08Dispatch", SetupC08Dispatch, HarnessC08Dispatch)
+	reg1("C08Irrelevant", SetupC08Irrelevant, HarnessC08Irrelevant)
 	reg1("C08Tsr", SetupC08Tsr, HarnessC08Tsr)
 	reg1("C11Serve", SetupC11Serve, HarnessC11Serve)
 	reg1("C14Seq", SetupC14Seq, HarnessC14Seq)
